@@ -124,6 +124,36 @@ fn site_for(r: &mut Rng) -> Site {
 }
 
 pub fn run(ctx: &Ctx, st: &mut Stats) {
+    if ctx.build.contains("config") {
+        // (single-threaded configuration shards only: the environment is changed) the machine's "today" moves on while
+        // the process lives — a long-running service, or its zone setting changes. Windows of consecutive dates around
+        // today are evaluated before and after the local date has advanced by switching TZ between UTC-12 and UTC+14.
+        let saved = std::env::var("TZ").ok();
+        let mut rt = Rng::new(ctx.seed, 133, ctx.shard);
+        // (chrono re-reads the zone setting at most once per second: each switch is followed by a 1.1 s pause)
+        let pause = || std::thread::sleep(std::time::Duration::from_millis(1100));
+        for _ in 0..2 {
+            let la = rt.range(-45.0, 45.0);
+            let lon = rt.range(-178.0, 178.0);
+            let site = Site::new(la, lon, 0.0, (lon / 15.0).round().clamp(-12.0, 12.0));
+            let method = *rt.pick(&ANGLE_METHODS);
+            std::env::set_var("TZ", "UTC+12");
+            pause();
+            let today_a = chrono::Local::now().date_naive();
+            check(ctx, st, &Case { site, method, start: d2s(from_ce(ce(today_a) - 3)), len: 5 });
+            std::env::set_var("TZ", "UTC-14");
+            pause();
+            let today_b = chrono::Local::now().date_naive();
+            check(ctx, st, &Case { site, method, start: d2s(from_ce(ce(today_b) - 3)), len: 6 });
+            if today_b != today_a {
+                st.count("windows_around_today_evaluated_before_and_after_the_local_date_advanced");
+            }
+        }
+        match saved {
+            Some(v) => std::env::set_var("TZ", v),
+            None => std::env::remove_var("TZ"),
+        }
+    }
     let nsites = ((ctx.pick(16, 640) as f64 * ctx.scale).ceil() as u64).max(1);
     let corpus = gen::corpus_sites(45.0);
     let total = (day_hi() - day_lo() + 1) as u32;
